@@ -104,6 +104,8 @@ def run(functions=None, modules=None, timeout_ms=10000, verbose=True):
     if verbose:
         for v in verdicts:
             print(f"{v.status:9s} {v.solver:4s} {v.seconds:6.2f}s {v.name}   {v.note[:70] if v.status != 'proved' else ''}")
+            if v.status != "proved":
+                print("      trace:", " ".join(v.trace))
             if v.status == "failed" and v.model:
                 print("      model:", {k: v.model[k] for k in list(v.model)[:8]})
             if v.status == "undecided":
